@@ -55,6 +55,11 @@ def configs(tier, seed):
                     'omask': rng.random() < 0.35})
         # planes without arrays around the aperture: a tilt picked up before it, and a default / all-scalar / tilt plane after it
         # (tilt angles are fixed multiples of du/f, so the image displacement is a concrete number of samples)
+        if out[-1]['omask'] and rng.random() < 0.6:
+            # an output mask that is a random rectangle of the oversampled output (bounding boxes of either parity anywhere)
+            S0 = (shape[0] * os, shape[1] * os)
+            r0, c0 = rng.randrange(S0[0]), rng.randrange(S0[1])
+            out[-1]['omask'] = [r0, rng.randrange(r0, S0[0]), c0, rng.randrange(c0, S0[1])]
         if rng.random() < 0.3:
             out[-1]['pre'] = rng.choice([[1, 0], [0, -1], ['1/2', '-3/4'], [-1, 1]])
         if rng.random() < 0.45:
@@ -149,7 +154,11 @@ def run(W, cfg):
         if cfg.get('omask'):
             S0 = (cfg['shape'][0] * cfg['os'], cfg['shape'][1] * cfg['os'])
             omask = rnp.zeros(S0, dtype=int)
-            omask[S0[0] // 2:, : max(1, S0[1] - 1)] = 1          # an off-centre box: the window is clipped, the DFT gets a non-zero shift
+            if isinstance(cfg['omask'], list):
+                r0, r1, c0, c1 = cfg['omask']
+                omask[r0:r1 + 1, c0:c1 + 1] = 1
+            else:
+                omask[S0[0] // 2:, : max(1, S0[1] - 1)] = 1          # an off-centre box: the window is clipped, the DFT gets a non-zero shift
         o = lt.propagate_dft(w, pixelscale=du, shape=tuple(cfg['shape']), prop_shape=tuple(cfg['prop']), oversample=cfg['os'], mask=omask)
         f1, i1 = o.field, o.intensity
         f2, i2 = o.field, o.intensity
@@ -168,11 +177,21 @@ def run(W, cfg):
     W.ob('intensity seg coherent', res['seg'][1], W.array([[W.abs2(fs[i, j]) for j in range(S[1])] for i in range(S[0])]))
     # and against the defining sum (ties the common value to C02's reference)
     sup = [tuple(x) for b in cfg['blocks'] for x in b]
-    if not cfg['second'] and not cfg.get('omask') and not cfg.get('pre') and not cfg.get('post'):
+    if not cfg['second'] and not cfg.get('pre') and not cfg.get('post'):
         wr = optics.centre_window(S[0], cfg['prop'][0] * cfg['os'])
         wc = optics.centre_window(S[1], cfg['prop'][1] * cfg['os'])
         samples = [((r, c), optics.phasor(W, A[r, c], O[r, c], lam)) for r, c in sup]
-        want = optics.fraunhofer(W, samples, shp, lam, f, dx, du, cfg['os'], S, lambda i, j: wr[0] <= i <= wr[1] and wc[0] <= j <= wc[1])
+        bb = (0, S[0] - 1, 0, S[1] - 1)
+        if cfg.get('omask'):
+            S0 = (cfg['shape'][0] * cfg['os'], cfg['shape'][1] * cfg['os'])
+            om = rnp.zeros(S0, dtype=int)
+            if isinstance(cfg['omask'], list):
+                om[cfg['omask'][0]:cfg['omask'][1] + 1, cfg['omask'][2]:cfg['omask'][3] + 1] = 1
+            else:
+                om[S0[0] // 2:, : max(1, S0[1] - 1)] = 1
+            bb = optics.bbox(om.tolist())
+        want = optics.fraunhofer(W, samples, shp, lam, f, dx, du, cfg['os'], S,
+                                 lambda i, j: wr[0] <= i <= wr[1] and wc[0] <= j <= wc[1] and bb[0] <= i <= bb[1] and bb[2] <= j <= bb[3])
         W.ob('field seg=sum', res['seg'][0], W.array(want))
 
 
